@@ -35,7 +35,11 @@ META = {
     "min_obs": {"all": {"choice_calls_law_checked": 800, "orders_matched_on_ballots": 300, "slate_pl_conditionals": 50,
                         "bt_tables_p_checked": 40, "kernel_pairs_balanced": 60, "freq_tests": 6, "spatial_voters_checked": 300,
                         "ic_uniform_checks": 5, "crossover_split_checks": 20, "chain_steps_validated": 300,
-                        "chain_runs_of_3plus_steps": 20}},
+                        "chain_runs_of_3plus_steps": 20,
+                        "law_checked_name_PlackettLuce": 50, "law_checked_short_name_PlackettLuce": 50, "law_checked_name_Cumulative": 50,
+                        "law_checked_slate_PlackettLuce": 50, "law_checked_slate_BradleyTerry": 50,
+                        "law_checked_AlternatingCrossover": 50, "law_checked_CambridgeSampler": 50,
+                        "slate_pl_sampler_requests_checked": 50}},
     "soft_deadline": {"quick": 200, "thorough": 3000},
 }
 
@@ -96,16 +100,62 @@ def check_law(ctx, case):
             ctx.count("warmup_requests_on_same_generator")
         except Exception:  # noqa
             ctx.count("warmup_raised")
+    # slate-PL hands the slate patterns to a module-level sampler (whose own law is decided by the type cases): what it is asked
+    # for - slate sizes without zero-support candidates, the voter bloc's own cohesion row, the bloc's ballot count - and what it
+    # answered are recorded here and compared with the ballots below
+    import votekit.ballot_generator as _bg
+    type_calls = []
+    orig_sampler = getattr(_bg, "sample_cohesion_ballot_types", None)
+
+    def spy_sampler(*a, **kw):
+        res = orig_sampler(*a, **kw)
+        type_calls.append((a, kw, [list(t) for t in res]))
+        return res
+
     r = rng.Rng("tap", seed=case["seed"])
     with r:
-        if case.get("entry") == "mcmc":
-            o = observe(g.generate_profile, N, by_bloc=True, deterministic=False)
-        else:
-            o = observe(g.generate_profile, N, by_bloc=True)
+        if model == "slate_PlackettLuce" and orig_sampler is not None:
+            _bg.sample_cohesion_ballot_types = spy_sampler
+        try:
+            if case.get("entry") == "mcmc":
+                o = observe(g.generate_profile, N, by_bloc=True, deterministic=False)
+            else:
+                o = observe(g.generate_profile, N, by_bloc=True)
+        finally:
+            if orig_sampler is not None:
+                _bg.sample_cohesion_ballot_types = orig_sampler
     if not o.ok:
         ctx.count("generation_raised_skipped")  # judged by C14
         return
     by_bloc, pp = o.value
+    if model == "slate_PlackettLuce" and type_calls and all(not a and set(kw) == {"slate_to_non_zero_candidates", "num_ballots", "cohesion_parameters_for_bloc"}
+                                                            for a, kw, _ in type_calls) and len(type_calls) == len(blocs):
+        gblocs = list(getattr(g, "blocs", blocs))
+        slate_of_ = {c: s_ for s_, cs_ in p["slate_to_candidates"].items() for c in cs_}
+        for (a, kw, res), b in zip(type_calls, gblocs):
+            ctx.count("slate_pl_sampler_requests_checked")
+            want_sizes = {s_: sum(1 for v in p["pref_intervals_by_bloc"][b][s_].values() if v > 0) for s_ in blocs}
+            got_sizes = {s_: len(v) for s_, v in kw["slate_to_non_zero_candidates"].items()}
+            coh = kw["cohesion_parameters_for_bloc"]
+            nb = int(by_bloc[b].total_ballot_wt)
+            if got_sizes != want_sizes or kw["num_ballots"] != nb or set(coh) != set(blocs) or \
+                    any(not close(coh[s_], p["cohesion_parameters"][b][s_]) for s_ in blocs):
+                ctx.fail("slate_PlackettLuce: the slate patterns of a bloc are requested with the wrong slate sizes / cohesion row / "
+                         "ballot count", case, {"bloc": b, "sizes": got_sizes, "want_sizes": want_sizes, "num_ballots": kw["num_ballots"],
+                                                "bloc_size": nb, "cohesion": {k: float(v) for k, v in coh.items()},
+                                                "want_cohesion": p["cohesion_parameters"][b]})
+                return
+            # the bloc's ballots carry exactly the patterns the sampler answered (as a multiset)
+            from collections import Counter
+            zero_b = {c for s_ in blocs for c, v in p["pref_intervals_by_bloc"][b][s_].items() if v == 0}
+            obs = Counter()
+            for bl in by_bloc[b].ballots:
+                names = [next(iter(x)) for x in bl.ranking if len(x) == 1 and not (set(x) <= zero_b)]
+                obs[tuple(slate_of_.get(c) for c in names)] += int(bl.weight)
+            if obs != Counter(tuple(t) for t in res):
+                ctx.fail("slate_PlackettLuce: the ballots of a bloc do not carry the slate patterns that were sampled for it", case,
+                         {"bloc": b, "sampled": [list(t) for t in res][:5], "on_ballots": [list(k) for k in obs][:5]})
+                return
     calls = [e for e in r.events if e["prim"] == "np.choice" and not (len(e["a"]) > 0 and isinstance(e["a"][0], (int, _np.integer)) and e.get("p") is None and model == "slate_BradleyTerry")]
     sizes = {b: int(by_bloc[b].total_ballot_wt) for b in blocs}
     s2c = p["slate_to_candidates"]
@@ -138,6 +188,7 @@ def check_law(ctx, case):
     cand_calls = [e for e in calls if len(e["a"]) > 0 and all(str(x) in slate_of for x in e["a"])]
     if len(cand_calls) != len(labels):
         ctx.count("law_structure_unrecognised")
+        ctx.count("law_structure_unrecognised_" + model)
         return
     per_ballot_orders = {b: [] for b in blocs}
     cur = {}
@@ -145,6 +196,7 @@ def check_law(ctx, case):
         a = [str(x) for x in e["a"]]
         pv = e["p"]
         ctx.count("choice_calls_law_checked")
+        ctx.count("law_checked_" + model)  # per model: a generator whose draws are no longer recognised must not hide in the total
         if s == "zero-tie":
             nz, zero = bp.combined_interval(p, b)
             if set(a) != zero or pv is not None and len(set(round(x, 12) for x in pv)) > 1 or e["replace"]:
